@@ -1107,6 +1107,7 @@ class Interp:
             s0.ghost[('iter-start', depth, head)] = len(s0.calls)
             havocked_locals = set(self._havocked)
             havocked_derefs = set(self._havocked_derefs)
+            havocked_refs = set(self._havocked_refs)
             cands = self.candidates(entry, s0, f0, mapping, head)
             if self.loop_candidates:
                 cands += self.loop_candidates(self, entry, s0, f0, head, mapping) or []
@@ -1130,6 +1131,7 @@ class Interp:
                     # check candidates at the back edge: head vars := current values
                     self._havocked_set = havocked_locals
                     self._havocked_deref_set = havocked_derefs
+                    self._havocked_refs_set = havocked_refs
                     cur = self.current_values(o.state, o.state.frames[-1], hav, mapping)
                     for c in valid:
                         cc = T.subst(c, cur)
@@ -1143,6 +1145,7 @@ class Interp:
                     if o.kind == 'back' and o.info == (depth, head):
                         self._havocked_set = havocked_locals
                         self._havocked_deref_set = havocked_derefs
+                        self._havocked_refs_set = havocked_refs
                         cur = self.current_values(o.state, o.state.frames[-1], hav, mapping)
                         self.back_states.append((fn.path, head, o.state, mapping, valid, cur))
                 self.head_states.append((fn.path, head, s0_snapshot, mapping, valid))
@@ -1153,6 +1156,7 @@ class Interp:
         """locals assigned inside the loop (directly, or through a &mut taken in the loop)"""
         mod = set()
         deref_written = set()
+        assigned = set()
         for b in body:
             blk = fn.blocks[b]
             for s in blk['stmts']:
@@ -1162,6 +1166,8 @@ class Interp:
                         deref_written.add(pl['l'])
                     else:
                         mod.add(pl['l'])
+                        if not pl['p']:
+                            assigned.add(pl['l'])
                     rv = s[2]
                     if rv[0] == 'ref' and rv[1]:
                         tgt = rv[2]
@@ -1176,11 +1182,14 @@ class Interp:
                     deref_written.add(pl['l'])
                 else:
                     mod.add(pl['l'])
-        return (sorted(mod), sorted(deref_written))
+                    if not pl['p']:
+                        assigned.add(pl['l'])
+        return (sorted(mod), sorted(deref_written), assigned)
 
     def havoc(self, st, fr, hav, head, inst=0):
         """replace the modified scalars by fresh variables; returns [(fresh var, entry value)]"""
-        mod, derefs = hav
+        mod, derefs = hav[0], hav[1]
+        directly_assigned = hav[2] if len(hav) > 2 else None
         mapping = []
 
         def hv(v, hint, ty=None):
@@ -1207,6 +1216,20 @@ class Interp:
             if isinstance(v, Sym):
                 return Sym(T.var('%s@bb%d#%d.s%d' % (hint, head, inst, len(mapping))), v.ty)
             if isinstance(v, Ref):
+                # a reference-valued local that is re-assigned in the loop: afterwards it may point anywhere
+                if ty is not None and is_ref_ty(ty) and not v.mut:
+                    inner = strip_ref(ty) or ty
+                    nv = T.var('%s@bb%d#%d.r%d' % (hint, head, inst, len(mapping)))
+                    cur = self.load(st, v.cell, v.path)
+                    if is_scalar_ty(inner):
+                        sv = T.typed(nv, inner)
+                        mapping.append((sv, cur if isinstance(cur, tuple) else sv))
+                        return Ref(Cell(sv), ())
+                    try:
+                        mapping.append((nv, self.to_term(st, cur)))
+                    except Exception:
+                        mapping.append((nv, nv))
+                    return Ref(Cell(self.sym_value(st, nv, inner)), ())
                 return v
             if isinstance(v, Clo):
                 return v
@@ -1215,6 +1238,7 @@ class Interp:
             raise Unanalysable('havoc of %r' % (v,))
 
         self._havocked = []
+        self._havocked_refs = []
         for l in mod:
             c = fr.cells[l]
             if c.v is None:
@@ -1224,6 +1248,11 @@ class Interp:
             lty = fr.fn.locals[l]['ty']
             if isinstance(c.v, tuple) and is_scalar_ty(lty):
                 c.v = hv(c.v, name, lty)
+            elif isinstance(c.v, Ref) and directly_assigned is not None and l in directly_assigned:
+                before = len(mapping)
+                c.v = hv(c.v, name, lty)
+                if len(mapping) > before:
+                    self._havocked_refs.append(l)
             else:
                 c.v = hv(c.v, name)
         self._havocked_derefs = []
@@ -1239,7 +1268,7 @@ class Interp:
 
     def current_values(self, st, fr, hav, mapping):
         """map each head variable to its value at the back edge (same traversal order as havoc)"""
-        mod, derefs = hav
+        mod, derefs = hav[0], hav[1]
         vals = []
 
         def cv(v):
@@ -1259,13 +1288,24 @@ class Interp:
                 cv(v.pos)
                 if 'rev' in v.kind:
                     cv(v.end)
+            elif isinstance(v, Ref) and refmode:
+                tv = self.load(st, v.cell, v.path)
+                try:
+                    vals.append(tv if isinstance(tv, tuple) else self.to_term(st, tv))
+                except Exception:
+                    vals.append(st.fresh_var('unknown'))
 
         # simpler: recompute with the same traversal on current values
+        assigned = hav[2] if len(hav) > 2 else set()
+        refmode = False
         for l in mod:
             c = fr.cells[l]
             if c.v is None or l not in self._havocked_set:
                 continue
+            lty = fr.fn.locals[l]['ty']
+            refmode = isinstance(c.v, Ref) and l in assigned and is_ref_ty(lty) and not lty.startswith('&mut') and l in self._havocked_refs_set
             cv(c.v)
+            refmode = False
         for l in derefs:
             v = fr.cells[l].v
             if isinstance(v, Ref) and l in self._havocked_deref_set:
